@@ -276,6 +276,16 @@ def install(E):
             E.throw("TypeError", "'<' not supported between instances")
         return E.mk_list([items[i] for i in order])
 
+    @nat("slice")
+    def b_slice(*a):
+        if len(a) == 1:
+            return SliceObj(None, a[0], None)
+        if len(a) == 2:
+            return SliceObj(a[0], a[1], None)
+        if len(a) == 3:
+            return SliceObj(a[0], a[1], a[2])
+        E.throw("TypeError", "slice expected at most 3 arguments")
+
     @nat("iter")
     def b_iter(x):
         return x if isinstance(x, PIter) else PIter(E.iterate(x))
